@@ -850,6 +850,9 @@ func (w *SessWorld) nameOf(uuid string) string {
 // QuietOthers checks that no session other than s received anything.
 func (w *SessWorld) QuietOthers(s *SS) []string {
 	var probs []string
+	if s == nil {
+		s = &SS{Name: "nobody (a Flush RPC)"}
+	}
 	for _, o := range w.Sess {
 		if o == s || !o.Open || o.St == nil {
 			continue
